@@ -34,6 +34,7 @@ type Prog struct {
 	specConsts     map[string]Param
 	axioms         []*Axiom
 	pures          map[string]bool
+	absFields      map[string]map[string]AbsField
 	files          []*ContractFile
 	modsets        map[*ssa.Function]map[string]bool
 	contractSource map[string]string // pkg -> path actually used
@@ -69,7 +70,7 @@ func LoadProg(patterns []string) (*Prog, error) {
 	prog.Build()
 	p := &Prog{prog: prog, pkgs: map[string]*packages.Package{}, spkgs: map[string]*ssa.Package{},
 		contracts: map[string]*Contract{}, ifaceContracts: map[string]*Contract{}, libContracts: map[string]*Contract{},
-		specs: map[string]*SpecFunc{}, specConsts: map[string]Param{}, pures: map[string]bool{}, modsets: map[*ssa.Function]map[string]bool{},
+		specs: map[string]*SpecFunc{}, specConsts: map[string]Param{}, pures: map[string]bool{}, absFields: map[string]map[string]AbsField{}, modsets: map[*ssa.Function]map[string]bool{},
 		contractSource: map[string]string{}, sorts: map[string]bool{}, mirrorNote: map[string]string{}}
 	packages.Visit(pkgs, nil, func(pk *packages.Package) {
 		p.pkgs[pk.PkgPath] = pk
@@ -182,6 +183,7 @@ func (p *Prog) addFile(cf *ContractFile) {
 		p.specConsts[c.Name] = c
 	}
 	p.axioms = append(p.axioms, cf.Axioms...)
+	p.registerAbsFields(cf)
 	for _, pu := range cf.Pures {
 		// "VNode.ID" (interface method in this package) or a full function name
 		if strings.Contains(pu, "/") || cf.Pkg == "" {
@@ -492,23 +494,9 @@ func (p *Prog) modset(e *Engine, fn *ssa.Function) map[string]bool {
 	}
 	// a contract with a modifies clause is authoritative
 	if c := p.contracts[p.funcKey(fn)]; c != nil && !c.Inline {
-		// resolved lazily at call sites; here approximate by field names
 		for _, mm := range c.Modifies {
-			if i := strings.LastIndex(mm, "."); i > 0 {
-				// find struct types in the package with that field
-				fieldName := mm[i+1:]
-				for _, mem := range fn.Pkg.Members {
-					if tm, ok := mem.(*ssa.Type); ok {
-						if st, ok := tm.Type().Underlying().(*types.Struct); ok {
-							for k := 0; k < st.NumFields(); k++ {
-								if st.Field(k).Name() == fieldName {
-									n, _ := e.fieldMapName(tm.Type(), k)
-									m[n] = true
-								}
-							}
-						}
-					}
-				}
+			for _, h := range e.staticModHeaps(c, fn, mm) {
+				m[h] = true
 			}
 		}
 		if !c.ModAll {
